@@ -913,7 +913,9 @@ def node_texts(ctx):
 
 # ----------------------------------------------------------------------------------------------------------------- domain 5: content
 
-ALPHABET = ['a', 'f', '1', '-', '"', "'", '\\', '(', ')', ' ', '\n', '\r', '\f', '\t', 'é', ';', ',', '/', '*', '{', '}', ':', '\xa0', '\U0001F600', '\x7f', '\x01', '@', '#', '.', '!']
+ALPHABET = ['a', 'f', '1', '-', '"', "'", '\\', '(', ')', ' ', '\n', '\r', '\f', '\t', 'é', ';', ',', '/', '*', '{', '}', ':', '\xa0', '\U0001F600', '\x7f', '\x01', '@', '#', '.', '!',
+            # the rest of the ASCII punctuation (single-character contents only): every one is legal in an unquoted url() and in strings
+            '[', ']', '?', '&', '=', '%', '+', '~', '$', '<', '>', '^', '`', '|', '_']
 
 
 WRITERS = ('base', 'alt', 'hex6')   # see WRITER_FORMS
